@@ -6,7 +6,7 @@ pub mod explore;
 pub mod enc;
 pub mod leb;
 
-pub use engine::{guard, CheckDef, Ctx, Panic, Sub, Tier};
+pub use engine::{deep, guard, CheckDef, Ctx, Panic, Sub, Tier};
 
 pub fn hex(b: &[u8]) -> String {
     let mut s = String::with_capacity(b.len() * 2);
